@@ -1,6 +1,7 @@
 package checks
 
 import (
+	"context"
 	"fmt"
 	"net/http"
 	"strconv"
@@ -16,7 +17,9 @@ import (
 func init() { register(&Check{ID: "C13", Run: runC13, ShardDepth: 3}) }
 
 func c13Failures(tier string) []int {
-	f := []int{-1, 500, 502, 503, 504} // -1: transport error
+	// -1: transport error; -2 / -3: an error that wraps context.DeadlineExceeded / context.Canceled although the caller's
+	// own context is alive (a per-attempt timeout inside the upstream); -4: transport error after 5 s; -5: 503 after 5 s
+	f := []int{-1, -2, -3, -4, -5, 500, 502, 503, 504}
 	if tier == "thorough" {
 		for s := 400; s <= 599; s++ {
 			if s != 500 && s != 502 && s != 503 && s != 504 {
@@ -54,7 +57,11 @@ func runC13(x *mc.X) {
 	if staleness < 0 || (stIdx == 3 && (N-1 == 1 || N == 1 || N+1 == 1)) {
 		x.Skip() // fresh, or duplicate of another staleness choice
 	}
-	w := world.New(world.Opt{})
+	logger := ""
+	if failure < 0 || failure == 503 {
+		logger = mc.Pick(x, "logger", []string{"", "text"})
+	}
+	w := world.New(world.Opt{Logger: logger})
 	defer w.Close()
 	sie := "stale-if-error=" + strconv.FormatInt(N, 10)
 	storedCC := cc("max-age=10", storedSIE, ifs(blocker == "must-revalidate", "must-revalidate"), ifs(blocker == "stored-no-cache", "no-cache"))
@@ -73,9 +80,24 @@ func runC13(x *mc.X) {
 	st := &oracle.Stored{Status: tk.Status, Header: tk.Header, ReqTime: tk.ReqTime, RespTime: tk.RespTime}
 	world.Advance(secs(10 + staleness))
 
+	slow := failure == -4 || failure == -5
+	switch failure {
+	case -4:
+		failure = -1
+	case -5:
+		failure = 503
+	}
 	answerFn(w, func(o *world.Origin, c *world.Call) (*http.Response, error) {
-		if failure < 0 {
+		if slow {
+			_ = world.Sleep(c.Req, secs(5))
+		}
+		switch failure {
+		case -1:
 			return nil, errOrigin
+		case -2:
+			return nil, fmt.Errorf("upstream attempt timed out: %w", context.DeadlineExceeded)
+		case -3:
+			return nil, fmt.Errorf("upstream attempt abandoned: %w", context.Canceled)
 		}
 		var eh [][2]string
 		if placement == "error-reply-only" {
@@ -103,14 +125,22 @@ func runC13(x *mc.X) {
 	x.Note(obsClass(o2))
 	x.Sample(map[string]any{"stored_cache_control": storedCC, "request_cache_control": reqCC, "N": N, "staleness_s": staleness, "failure": failure, "observed": o2.String()})
 	if o2.Panic != nil {
-		return // C10
+		if eligible && applicable && staleness+5 < N && blocker == "" {
+			x.Failf("stale-if-error not honoured: the round trip panicked instead of serving the stored response"+ifs(logger != "", " (logger enabled)"), "staleness %d < N %d, failure %d: %v", staleness, N, failure, o2.Panic)
+		}
+		return // otherwise C10's business
 	}
 	if len(o2.Calls) != 1 {
 		x.Failf("no validation attempt", "expected exactly one foreground origin call, saw %d: %s", len(o2.Calls), o2)
 		return
 	}
 	servedStored := o2.Err == nil && o2.Tok == o1.Tok
-	mustServe := eligible && applicable && staleness < N && blocker == ""
+	// a failure that takes 5 s: the window may be judged when the request arrives or when the failure is known
+	late := staleness
+	if slow {
+		late += 5
+	}
+	mustServe := eligible && applicable && late < N && blocker == ""
 	mustNot := !eligible || !applicable || staleness > N || blocker != ""
 	sig := fmt.Sprintf("placement=%s eligible=%v window=%s blocker=%q", placement, eligible, map[bool]string{true: "inside", false: "outside"}[staleness < N], blocker)
 	if failure >= 0 && !eligible {
@@ -130,7 +160,7 @@ func runC13(x *mc.X) {
 		ok := false
 		if len(av) == 1 {
 			if got, err := strconv.ParseInt(av[0], 10, 64); err == nil {
-				for _, a := range st.Ages(now) {
+				for _, a := range st.Ages(now.Add(o2.Dur)) { // judged when the response is handed over (a failing origin may take its time)
 					if got >= a-1 && got <= a+1 {
 						ok = true
 					}
@@ -138,12 +168,12 @@ func runC13(x *mc.X) {
 			}
 		}
 		if !ok {
-			x.Failf("stale-if-error response with wrong Age", "Age=%q, current age %v", av, st.Ages(now))
+			x.Failf("stale-if-error response with wrong Age", "Age=%q, current age %v", av, st.Ages(now.Add(o2.Dur)))
 		}
 	} else if mustNot || !mustServe {
 		// the origin's failure is what the client must see
 		if failure < 0 {
-			if o2.Err == nil && !(staleness == N && applicable && eligible && blocker == "") {
+			if o2.Err == nil && !(staleness <= N && late >= N && applicable && eligible && blocker == "") {
 				x.Failf("origin error masked: "+sig, "origin call failed but client got %s", o2)
 			}
 		} else if o2.Err != nil || o2.Status != failure {
